@@ -59,7 +59,7 @@ def _excl_summary():
 RULE = (f'case = (constructor name, value tree). reftl parses lite_api.tl + ton_api.tl itself: {len(SUPPORTED)} supported '
         f'constructors (types and functions), {len(EXCLUDED)} excluded ({_excl_summary()}; names: '
         f'{", ".join(sorted(EXCLUDED))}). Sub-check enum-all-constructors visits EVERY supported constructor k times '
-        '(k=8 quick / 100 thorough: minimal value, maximal value, then hash-seeded values), flags-all-combinations '
+        '(k=8 quick / 150 thorough: minimal value, maximal value, then hash-seeded values), flags-all-combinations '
         'visits every combination of the flag bits a constructor uses (all when <=6 bits, else 64/4096 sampled), '
         'random draws constructor and value with Hypothesis (nesting <= 4, vectors 0..3, byte/text lengths '
         '0..12, 252..257, 1000, 70000; ints over the full range with boundary bias; polymorphic fields through every '
@@ -629,7 +629,7 @@ def all_flag_fields(c):
 
 
 def enum_all(tier):
-    k = 8 if tier == 'quick' else 100
+    k = 8 if tier == 'quick' else 150
     for name in SUPPORTED:
         c = SCH.ctor(name)
         for j in range(k):
@@ -742,12 +742,12 @@ def classify_bid(case):
 
 SUBCHECKS = [
     Sub('enum-all-constructors', check_ctor, enum=enum_all, classify=classify, nontrivial=nontrivial, shards=(16, 32),
-        note=f'every one of the {len(SUPPORTED)} supported constructors x k values (k=8 quick, 100 thorough)'),
+        note=f'every one of the {len(SUPPORTED)} supported constructors x k values (k=8 quick, 150 thorough)'),
     Sub('flags-all-combinations', check_ctor, enum=enum_flags, classify=classify, nontrivial=nontrivial, shards=(8, 16),
         note='every constructor with conditional fields x every combination of its flag bits (capped 64 / 4096)'),
     Sub('random', check_ctor, strategy=strat_random, classify=classify, nontrivial=nontrivial,
-        n=(12000, 150000), shards=(16, 32)),
+        n=(12000, 600000), shards=(16, 48)),
     Sub('string-framing', check_ctor, strategy=strat_strings, classify=classify, nontrivial=nontrivial,
-        n=(4000, 40000), shards=(8, 32)),
-    Sub('block-id-helpers', check_blockid, strategy=strat_blockid, classify=classify_bid, n=(1000, 20000), shards=(4, 8)),
+        n=(4000, 150000), shards=(8, 32)),
+    Sub('block-id-helpers', check_blockid, strategy=strat_blockid, classify=classify_bid, n=(1000, 50000), shards=(4, 8)),
 ]
